@@ -68,11 +68,25 @@ func staticScratchBase() string {
 	return os.TempDir()
 }
 
+// staticTwinContent: a file of the same SIZE as file `of` (and given the same modification time and base name by the
+// tree builder) but other bytes — two files a cache keyed by name, size and time cannot tell apart
+func staticTwinContent(of int) []byte {
+	return []byte(fmt.Sprintf("<<twin %d>>", of) + strings.Repeat("x", of))
+}
+
 type staticTree struct {
 	base, pub string
 	relOfID   map[int]string // files inside pub
 	outOfID   map[int]string // files outside pub (relative to base)
 	idOfSize  map[int64]int
+	twinOf    map[int]int // id of a twin file -> id of the file it mimics
+}
+
+func (t *staticTree) content(id int) []byte {
+	if of, ok := t.twinOf[id]; ok {
+		return staticTwinContent(of)
+	}
+	return staticContent(id)
 }
 
 func buildStaticTree(lines [][]string) *staticTree {
@@ -85,7 +99,7 @@ func buildStaticTree(lines [][]string) *staticTree {
 		os.RemoveAll(base)
 		panic("temp-dir-inside-protected-tree")
 	}
-	t := &staticTree{base: abs, pub: filepath.Join(abs, "pub"), relOfID: map[int]string{}, outOfID: map[int]string{}, idOfSize: map[int64]int{}}
+	t := &staticTree{base: abs, pub: filepath.Join(abs, "pub"), relOfID: map[int]string{}, outOfID: map[int]string{}, idOfSize: map[int64]int{}, twinOf: map[int]int{}}
 	must := func(err error) {
 		if err != nil {
 			os.RemoveAll(base)
@@ -108,6 +122,16 @@ func buildStaticTree(lines [][]string) *staticTree {
 			writeFile(t.pub+"/"+unhx(l[1]), id)
 			t.relOfID[id] = unhx(l[1])
 			t.idOfSize[int64(len(staticContent(id)))] = id
+		case len(l) == 5 && l[0] == "FS" && l[2] == "f":
+			// FS <rel> f <id> <of>: a twin of file <of> — same size, same modification time, other content
+			id, of := atoi(l[3]), atoi(l[4])
+			full := t.pub + "/" + unhx(l[1])
+			must(os.MkdirAll(filepath.Dir(full), 0o755))
+			must(os.WriteFile(full, staticTwinContent(of), 0o644))
+			mt := time.Date(2021, 1, 1, 0, 0, 0, 0, time.UTC).Add(time.Duration(of) * time.Second)
+			must(os.Chtimes(full, mt, mt))
+			t.relOfID[id] = unhx(l[1])
+			t.twinOf[id] = of
 		case len(l) == 3 && l[0] == "OUT":
 			id := atoi(l[2])
 			writeFile(t.base+"/"+unhx(l[1]), id)
@@ -179,7 +203,13 @@ func execStatic(args []string, lines [][]string) (outs []string) {
 			opts.CacheControl = func() string { return "max-age=60" }
 		}
 		f = flamego.NewWithLogger(io.Discard)
-		f.Use(flamego.Static(opts))
+		// the options travel in a slice the caller goes on using (the next mount is configured in the same element):
+		// what the middleware serves must be what it was constructed with
+		optSlice := []flamego.StaticOptions{opts}
+		mw := flamego.Static(optSlice...)
+		optSlice[0] = flamego.StaticOptions{Directory: filepath.Join(tree.base, "elsewhere"), Prefix: "/scribbled", Index: "nope.html",
+			FileSystem: http.Dir(filepath.Join(tree.base, "elsewhere"))}
+		f.Use(mw)
 		f.NotFound(func(c flamego.Context) {
 			nextRan = true
 			c.ResponseWriter().WriteHeader(http.StatusNotFound)
@@ -327,7 +357,7 @@ func staticRequest(t *staticTree, f *flamego.Flame, spy bool, opened *[]string, 
 		// the containment oracle: the body must be the on-disk content of a regular file inside pub/
 		for id, rel := range t.relOfID {
 			disk, err := os.ReadFile(t.pub + "/" + rel)
-			if err == nil && bytes.Equal(disk, body) && bytes.Equal(body, staticContent(id)) {
+			if err == nil && bytes.Equal(disk, body) && bytes.Equal(body, t.content(id)) {
 				if !t.insidePub(rel) {
 					return fmt.Sprintf("CONTAINMENT-BROKEN %d", id) + suffix
 				}
@@ -509,6 +539,21 @@ func genStaticSession(r *rand.Rand, emit Emit, pfx, index string, nreq int, smal
 			emit("FS %s f %d", hx(e.rel), e.id)
 		}
 	}
+	// twins: two files with the same base name, size and modification time in two directories, different content
+	twinA, twinB := 0, 0
+	if !small && r.Intn(2) == 0 {
+		maxID := 0
+		for _, e := range append(append([]staticEntry(nil), fs...), out...) {
+			if e.id > maxID {
+				maxID = e.id
+			}
+		}
+		twinA, twinB = maxID+1, maxID+2
+		emit("FS %s d", hx("tw1"))
+		emit("FS %s d", hx("tw2"))
+		emit("FS %s f %d", hx("tw1/t.txt"), twinA)
+		emit("FS %s f %d %d", hx("tw2/t.txt"), twinB, twinA)
+	}
 	for _, e := range out {
 		emit("OUT %s %d", hx(e.rel), e.id)
 	}
@@ -553,6 +598,11 @@ func genStaticSession(r *rand.Rand, emit Emit, pfx, index string, nreq int, smal
 		}
 		rec("")
 		return
+	}
+	if twinA != 0 {
+		for _, p := range []string{"/tw1/t.txt", "/tw2/t.txt", "/tw1/t.txt", "/tw2/t.txt"} {
+			emit("REQ %s %s -", hx("GET"), hx(np+p))
+		}
 	}
 	// fixed adversarial battery
 	battery := []string{
